@@ -1,0 +1,23 @@
+//go:build verif
+
+package merkle
+
+import "sync/atomic"
+
+// verification hook H1 (build tag verif only): the conformance harness overrides the
+// worker count that GetMerkleRoot derives from runtime.NumCPU(), so that every chunk
+// size of the parallel root computation can be exercised on any machine.
+var verifNCPUOverride int32
+
+// VerifSetNCPU makes GetMerkleRoot behave as on a machine with n CPUs; n <= 0 restores
+// runtime.NumCPU().
+func VerifSetNCPU(n int) {
+	atomic.StoreInt32(&verifNCPUOverride, int32(n))
+}
+
+func verifNCPU(ncpu int) int {
+	if v := atomic.LoadInt32(&verifNCPUOverride); v > 0 {
+		return int(v)
+	}
+	return ncpu
+}
